@@ -10,13 +10,13 @@ import numpy as np
 from pymatgen.core import Lattice, PeriodicSite
 from pymatgen.symmetry.groups import SpaceGroup
 
-from . import core, gem
+from . import core, gem, translate
 from .core import Outcome, PropertySpec, enc
 
 from gemdat.shape import ShapeAnalyzer  # noqa: E402
 
 PID = 'C17'
-MODULES = ['GProofs.Geometry', 'GProofs.C17']
+MODULES = ['GProofs.Geometry', 'GProofs.C17', 'GProofs.C17Gen']
 
 # space group -> compatible lattices (rational matrices)
 GROUPS = {
@@ -247,6 +247,7 @@ SPEC = PropertySpec(
     modules=MODULES,
     run=run,
     replay=replay,
+    gen=translate.gen_for('FormulasC17'),
     rule=('random cases over the space groups P1, P-1, P2, P2_1/c, Pmmm, P4, P4/mmm, Pm-3m, Fm-3m (operations from pymatgen) with a '
           'compatible rational lattice (triclinic / monoclinic / orthorhombic / tetragonal / cubic), a site on a k/64 grid (60% with a '
           'coordinate at 63/64, 62/64, 1/64, 0 or 1/2 so that symmetry images fall outside [0,1)), 3-11 positions placed at 0.2-1.4 radii '
